@@ -262,6 +262,24 @@ def group_key(label):
     return "%s(%s" % (head, first)
 
 
+def rule_ordinals():
+    """ordinal (among the module-level functions named `_`) of the rule registered for each term class, read from the
+    decorators -- so that a rule added or moved by a maintainer does not make a contract execute the wrong body"""
+    import ast
+
+    src, tree = core.parse_file(FILE)
+    out, k = {}, 0
+    for n in tree.body:
+        if isinstance(n, ast.FunctionDef) and n.name == "_":
+            for d in n.decorator_list:
+                txt = ast.unparse(d)
+                if txt.startswith("affine_inputs.register("):
+                    arg = txt[len("affine_inputs.register("):-1]
+                    out[arg.split("[")[0]] = k
+            k += 1
+    return out
+
+
 class _AffineRule(Contract):
     """affine_inputs(fn) -- the real function with its cache and the five real registered rules (this contract is anchored in
     one of them; the others are its real callees) -- returns a subset S of fn's real inputs such that fn is JOINTLY affine in S
@@ -274,7 +292,12 @@ class _AffineRule(Contract):
     file = FILE
     qualname = "_"
     total = True
-    needs = None  # node class whose rule this contract is anchored in
+    needs = None  # labels of the trees in which the rule under contract fires
+    rule_class = None  # the term class the rule under contract is registered for
+
+    @property
+    def ordinal(self):
+        return rule_ordinals()[self.rule_class]
 
     def mine(self, tier):
         """the trees in which the rule under contract fires at least once"""
@@ -296,7 +319,8 @@ class _AffineRule(Contract):
     def entry(self, loc, ctx):
         ns = ctx.namespace
         ns["_real_inputs"] = core.make_callable(core.locate(FILE, "_real_inputs"), ns)[0]
-        table = [(VarT, 0), (UnaryT, 1), (BinaryT, 2), (ReduceT, 3), (FinitaryT, 4)]
+        ords = rule_ordinals()
+        table = [(VarT, ords["Variable"]), (UnaryT, ords["Unary"]), (BinaryT, ords["Binary"]), (ReduceT, ords["Reduce"]), (FinitaryT, ords["Finitary"])]
         box, outer = {}, {}
 
         def dispatch(fn):
@@ -325,7 +349,7 @@ class _AffineRule(Contract):
 @register
 class AffineInputsBinaryRule(_AffineRule):
     __doc__ = "rule for Binary terms.  " + _AffineRule.__doc__
-    ordinal = 2
+    rule_class = "Binary"
     mutants = (
         ("a sum is affine in the union of both sides' affine inputs (the pinned-tree defect)", "        return (lhs_affine | rhs_affine) - non_affine", "        return lhs_affine | rhs_affine"),
         ("a quotient is affine in the divisor's inputs too", "        return affine_inputs(fn.lhs) - _real_inputs(fn.rhs)", "        return affine_inputs(fn.lhs)"),
@@ -336,7 +360,7 @@ class AffineInputsBinaryRule(_AffineRule):
 @register
 class AffineInputsReduceRule(_AffineRule):
     __doc__ = "rule for Reduce terms.  " + _AffineRule.__doc__
-    ordinal = 3
+    rule_class = "Reduce"
     needs = ("reduce_",)
     mutants = (("every reduction preserves affinity (the pinned-tree defect)", "    if fn.reduced_vars and fn.op is not ops.add:\n        return frozenset()  # only sums are linear\n", ""),)
 
@@ -344,7 +368,7 @@ class AffineInputsReduceRule(_AffineRule):
 @register
 class AffineInputsUnaryRule(_AffineRule):
     __doc__ = "rule for Unary terms.  " + _AffineRule.__doc__
-    ordinal = 1
+    rule_class = "Unary"
     needs = ("neg(", "sum(", "reshape(", "exp(")
     mutants = (("every unary op preserves affinity", "        return affine_inputs(fn.arg)\n    return frozenset()", "        return affine_inputs(fn.arg)\n    return affine_inputs(fn.arg)"),)
 
@@ -352,6 +376,6 @@ class AffineInputsUnaryRule(_AffineRule):
 @register
 class AffineInputsEinsumRule(_AffineRule):
     __doc__ = "rule for Finitary einsum terms.  " + _AffineRule.__doc__
-    ordinal = 4
+    rule_class = "Finitary"
     needs = ("einsum(",)
     mutants = (("an operand's affine inputs are kept although another operand uses them", "        results.append(affine_inputs(x) - other_inputs)", "        results.append(affine_inputs(x))"),)
